@@ -1321,3 +1321,83 @@ def rule_list_push(ctx, rid, F, head_field, next_field, reason):
                       detail="last %s value %r, CAS expected %r: with a stale link the records pushed in between are dropped from the list. %s"
                       % (next_field, st[-1].val if st else None, exp, reason), sig="push-link:%s" % head_field)
     return n
+
+
+def rule_dhp_retired_empty(ctx, rid, reason):
+    """retired_array::empty() decides at thread detach whether the blocks may be released: it may say 'empty' only if the write cursor stands on
+    the very first cell of the list (no block, or current block == head block and current cell == its first cell)"""
+    import itertools
+    from sa.pathsim import PathSim
+    from sa.q import noepoch, sv_field_path
+    F = ctx.need("cds::gc::dhp::retired_array::empty")[0]
+    rets = set()
+    for p in PathSim(F, bound=256).run():
+        if p.outcome == "return":
+            rets.add(_canon_bool(p.ret))
+    n = 0
+    for r in rets:
+        atoms = []
+        _collect_atoms(r, atoms)
+        if not any("current_cell_" in repr(a) for a in atoms):
+            ctx.ok(rid, F, "empty() is not cursor-based in this version (rule not applicable)", None, sig="empty-not-cursor-based")
+            continue
+
+        def kind(a):
+            s = repr(a)
+            if "current_block_" in s and "(null)" in s.replace("('null',)", "(null)") or ("current_block_" in s and "'null'" in s and "list_head_" not in s and "current_cell_" not in s):
+                return "A"
+            if "current_block_" in s and "list_head_" in s and "current_cell_" not in s:
+                return "B"
+            if "current_cell_" in s and "first" in s:
+                return "C"
+            return None
+        n += 1
+        bad = None
+        for vals in itertools.product((False, True), repeat=len(atoms)):
+            env = dict(zip(atoms, vals))
+            if not _eval_bool(r, env):
+                continue
+            A = any(env[a] for a in atoms if kind(a) == "A")
+            B = any(env[a] for a in atoms if kind(a) == "B")
+            Cc = any(env[a] for a in atoms if kind(a) == "C")
+            if not (A or (B and Cc)):
+                bad = env
+                break
+        ctx.check(bad is None, rid, F, "empty() reports true only when the write cursor is on the first cell of the head block (or there is no block)", None,
+                  detail="the predicate is true for: %s. With the cursor at the start of a later block the full blocks before it still hold retired pointers; "
+                  "free_thread_data() would release them undisposed. %s" % ({repr(k)[:60]: v for k, v in (bad or {}).items()}, reason), sig="empty-cursor-at-head")
+    return n
+
+
+def _canon_bool(sv):
+    from sa.q import noepoch
+    if isinstance(sv, tuple):
+        if sv[:1] in (("call",), ("callv",)):
+            return ("call", sv[1])
+        return tuple(_canon_bool(x) if isinstance(x, tuple) else x for x in noepoch(sv))
+    return sv
+
+
+def _collect_atoms(sv, out):
+    if isinstance(sv, tuple) and sv[:1] == ("op",) and sv[1] in ("||", "&&"):
+        _collect_atoms(sv[2], out)
+        _collect_atoms(sv[3], out)
+    elif isinstance(sv, tuple) and sv[:2] == ("un", "!"):
+        _collect_atoms(sv[2], out)
+    elif isinstance(sv, tuple) and sv[:1] == ("bool",):
+        _collect_atoms(sv[1], out)
+    else:
+        if sv not in out:
+            out.append(sv)
+
+
+def _eval_bool(sv, env):
+    if isinstance(sv, tuple) and sv[:1] == ("op",) and sv[1] == "||":
+        return _eval_bool(sv[2], env) or _eval_bool(sv[3], env)
+    if isinstance(sv, tuple) and sv[:1] == ("op",) and sv[1] == "&&":
+        return _eval_bool(sv[2], env) and _eval_bool(sv[3], env)
+    if isinstance(sv, tuple) and sv[:2] == ("un", "!"):
+        return not _eval_bool(sv[2], env)
+    if isinstance(sv, tuple) and sv[:1] == ("bool",):
+        return _eval_bool(sv[1], env)
+    return env[sv]
